@@ -4,7 +4,8 @@
 // exercises the callees whose contracts the Verus proof of unit c12_augment only assumes (generate_name,
 // Pr::new, Cfg::clone, is_used_on_rhs) - and (b) the two public callee contracts directly.
 // This is a bounded stand-in, labelled bounded, never counted as proved.
-use parol::{Cfg, Pr, Symbol, SymbolAttribute, Terminal, augment_grammar};
+use parol::{Cfg, Pr, Symbol, SymbolAttribute, Terminal, augment_grammar, check_and_transform_grammar};
+use parol::parser::parol_grammar::GrammarType;
 use std::collections::BTreeSet;
 
 // two name universes.  U0: S0/S1 are the names the fresh-name generator would pick next, so that freshness is really
@@ -66,12 +67,25 @@ fn check(st: usize, prods: &[(usize, Vec<usize>)]) -> Option<&'static str> {
     let r = match std::panic::catch_unwind(|| augment_grammar(&cfg)) { Ok(r) => r, Err(_) => return Some("augment_grammar panicked") };
     if count_lhs(&r.pr, &r.st) != 1 { return Some("the start symbol of the result has exactly one production"); }
     if occurs_on_rhs(&r.pr, &r.st) { return Some("the start symbol of the result occurs on no right-hand side"); }
-    let unchanged = r.st == cfg.st && r.pr == cfg.pr;
-    // the property does not say WHERE the new start production goes: any position is accepted
-    let augmented = r.pr.len() == cfg.pr.len() + 1 && !nt_set(&cfg).contains(&r.st) && (0..r.pr.len()).any(|k| {
-        let mut rest = r.pr.clone(); let p = rest.remove(k);
-        rest == cfg.pr && lhs(&p) == r.st && p.get_r().len() == 1 && nt_of(&p.get_r()[0]) == Some(cfg.st.as_str()) });
-    if !(unchanged || augmented) { return Some("shape: unchanged, or one fresh unit production S' -> S added"); }
+    let shape_ok = |r: &Cfg| {
+        let unchanged = r.st == cfg.st && r.pr == cfg.pr;
+        // the property does not say WHERE the new start production goes: any position is accepted
+        let augmented = r.pr.len() == cfg.pr.len() + 1 && !nt_set(&cfg).contains(&r.st) && (0..r.pr.len()).any(|k| {
+            let mut rest = r.pr.clone(); let p = rest.remove(k);
+            rest == cfg.pr && lhs(&p) == r.st && p.get_r().len() == 1 && nt_of(&p.get_r()[0]) == Some(cfg.st.as_str()) });
+        unchanged || augmented
+    };
+    if !shape_ok(&r) { return Some("shape: unchanged, or one fresh unit production S' -> S added"); }
+    // (c) the public entry point that hands the grammar on to LALR(1) table construction: whenever it accepts the grammar
+    // (productive, reachable) its result must satisfy the same clauses
+    match std::panic::catch_unwind(|| check_and_transform_grammar(&cfg, GrammarType::LALR1)) {
+        Err(_) => return Some("check_and_transform_grammar(LALR1) panicked"),
+        Ok(Err(_)) => {}
+        Ok(Ok(t)) => {
+            if count_lhs(&t.pr, &t.st) != 1 || occurs_on_rhs(&t.pr, &t.st) { return Some("call site: the grammar handed to LALR(1) table construction has an isolated start symbol"); }
+            if !shape_ok(&t) { return Some("call site: the grammar handed to LALR(1) table construction is the input grammar, or the input plus one fresh unit start production"); }
+        }
+    }
     None
 }
 fn nums(s: &str) -> Vec<i64> { s.split(|c: char| !(c.is_ascii_digit())).filter(|x| !x.is_empty()).map(|x| x.parse().unwrap()).collect() }
@@ -108,7 +122,9 @@ fn main() {
                   "callee: get_non_terminal_set() == {start} + all LHS + all RHS non-terminals",
                   "the start symbol of the result has exactly one production",
                   "the start symbol of the result occurs on no right-hand side",
-                  "shape: unchanged, or one fresh unit production S' -> S added"] {
+                  "shape: unchanged, or one fresh unit production S' -> S added",
+                  "call site: the grammar handed to LALR(1) table construction has an isolated start symbol",
+                  "call site: the grammar handed to LALR(1) table construction is the input grammar, or the input plus one fresh unit start production"] {
             println!("CHECKED\t{}\t{}", c, cases);
         }
     } else {
